@@ -406,3 +406,41 @@ def none_or_equal_cases(guards, obj, value):
         if all(ev(g, a, b) is not False for g in guards):
             out.add((a, b))
     return out
+
+
+def loop_variable_captures(model):
+    """[(relpath, lambda node, names)] for every lambda / nested def created inside a `for` loop (at module, class or function level) whose
+    body reads the loop variable without binding it (a default argument `x=x` binds it): closures bind late, so after the loop every such
+    function sees the *last* value.  Lambdas that are called on the spot (the callee of a call) are not reported."""
+    import ast as _ast
+    out = []
+    for rel, tree in model.modules.items():
+        for loop in _ast.walk(tree):
+            if not isinstance(loop, _ast.For):
+                continue
+            targets = {n.id for n in _ast.walk(loop.target) if isinstance(n, _ast.Name)}
+            called = {id(c.func) for st in loop.body for c in _ast.walk(st) if isinstance(c, _ast.Call)}
+            for st in loop.body:
+                for fn in _ast.walk(st):
+                    if not isinstance(fn, (_ast.Lambda, _ast.FunctionDef)) or id(fn) in called:
+                        continue
+                    a = fn.args
+                    own = {x.arg for x in a.posonlyargs + a.args + a.kwonlyargs} | ({a.vararg.arg} if a.vararg else set()) | ({a.kwarg.arg} if a.kwarg else set())
+                    body = [fn.body] if isinstance(fn, _ast.Lambda) else fn.body
+                    reads = {n.id for b in body for n in _ast.walk(b) if isinstance(n, _ast.Name) and isinstance(n.ctx, _ast.Load)}
+                    # generator expressions / comprehensions inside the lambda that rebind the name are rare enough to ignore
+                    hit = sorted((reads & targets) - own)
+                    if hit:
+                        out.append((rel, fn, hit))
+    return out
+
+
+def no_loop_variable_capture(ctx, rule):
+    n = 0
+    for rel, fn, names in loop_variable_captures(ctx.model):
+        n += 1
+        ctx.ob(rule, "%s:%d" % (rel, fn.lineno), False, "a function created inside a loop reads the loop variable %s without binding it (closures bind late: every function made by the loop sees the last value)" % names,
+               key="loop variable captured %s" % ",".join(names), loc="%s:%d" % (rel, fn.lineno))
+    cm = control_model("class A(object):\n    pass\nfor _name, _op in (('a', 1), ('b', 2)):\n    setattr(A, _name, lambda self, other: (_op, other))\n")
+    ctx.control(rule + " loop capture", bool(loop_variable_captures(cm)), "(late-binding lambda in a loop)")
+    return n
